@@ -279,5 +279,9 @@ def run(ck: Checker):
             # before the drain, so that the join of the feeder cannot wedge on a refilled queue (the C05-3/-4 obligations)
             c05.check_stop_flag(ck, 'C03-9', p)
             c05.check_join_safety(ck, 'C03-9', p)
+        # the stream ends the way the sequential meaning ends: the producer leaves a terminal item on every exit and the
+        # consumer understands every item the producer can send (the C05-1/-2 obligations)
+        c05.check_terminal_item(ck, 'C03-9', p)
+        c05.check_vocabulary(ck, 'C03-9', p)
     for q in ('fifo_stream', 'async_fifo_stream'):
         fifo.check_consumer_pairing(ck, 'C03-9', fifo.discover(ck.repo, smod.func(q)))
